@@ -96,6 +96,10 @@ class CacheWorld(object):
     s.file_p = dict(self.plan.get('file_p') or {})
     for pat, pp in (self.plan.get('hot') or []):
       s.heat(pat, pp)
+    if self.plan.get('opcode'):
+      s.opcode_fids = set(['c'])            # carbon/cache.py at bytecode granularity
+      s.p_opcode = self.plan.get('p_opcode', 0.02)
+      self.ctx.probe('opcode_level_run')
     lock = self.cache.lock
     lock.on_acquire = self.on_acquire
     lock.on_release = self.on_release
